@@ -740,6 +740,72 @@ theorem regenerated_annotates_outside_hits (ctx : Ctx) (x : HmmDet) (hv : x.vali
   obtain ⟨y, hy, ha⟩ := hmmDetection_adds_same_annotations ctx x hv
   exact ⟨y, hy, ha, fun c hc => by rw [ha]; exact (annotations_cover_outside_hits x.rules).1 c hc⟩
 
+/-- regenerated TTA results keep the record id they were saved with (never the current record's):
+    that id is what `run_on_record` and `add_to_record` test -/
+theorem tta_regenerated_keeps_saved_record_id (opt : Dec) (j : J) (x : TTA) (h : TTA.fromJson opt j = .reuse x) :
+    strField j "record_id" = some x.recordId := by
+  cases j with
+  | obj kv =>
+    simp only [TTA.fromJson] at h
+    split at h
+    · simp at h
+    · split at h
+      · simp at h
+      · obtain ⟨rid, hrid, h⟩ := bind_eq_reuse h
+        obtain ⟨gc, _, h⟩ := bind_eq_reuse h
+        obtain ⟨old, _, h⟩ := bind_eq_reuse h
+        have hr : lookup "record_id" kv = some (.str rid) := by
+          unfold reqStr at hrid
+          split at hrid <;> simp_all
+        split at h
+        · simp at h
+        · split at h
+          · obtain ⟨_, _, h⟩ := bind_eq_reuse h
+            obtain ⟨_, _, h⟩ := bind_eq_reuse h
+            simp at h; subst h
+            simp [strField, field, hr]
+          · simp at h; subst h
+            simp [strField, field, hr]
+  | null => simp [TTA.fromJson] at h
+  | bool _ => simp [TTA.fromJson] at h
+  | int _ => simp [TTA.fromJson] at h
+  | num _ => simp [TTA.fromJson] at h
+  | str _ => simp [TTA.fromJson] at h
+  | arr _ => simp [TTA.fromJson] at h
+
+/-- … so TTA results saved for one record are never taken over by another: the module runs afresh,
+    and adding them to the other record is refused -/
+theorem tta_results_of_another_record_not_reused (opt : Dec) (j : J) (x : TTA) (rid : String)
+    (h : TTA.fromJson opt j = .reuse x) (hne : strField j "record_id" ≠ some rid) :
+    x.keptByRun rid = false ∧ x.addToRecord rid = .refuse .value := by
+  have hs := tta_regenerated_keeps_saved_record_id opt j x h
+  apply tta_other_record_refused
+  intro heq
+  rw [hs, heq] at hne
+  exact hne rfl
+
+/-- the rule names of a run grow with the strictness level (strict ⊆ relaxed ⊆ loose) … -/
+theorem rulesetNames_mono (rules : List RuleInfo) (s₁ s₂ : String) (ln lc : List String)
+    (h : strictnessIndex s₁ ≤ strictnessIndex s₂) :
+    ∀ n ∈ rulesetNames rules s₁ ln lc, n ∈ rulesetNames rules s₂ ln lc := by
+  intro n hn
+  simp only [rulesetNames, List.mem_map, List.mem_filter, decide_eq_true_eq] at hn ⊢
+  obtain ⟨r, ⟨⟨hr, hl⟩, hf⟩, rfl⟩ := hn
+  exact ⟨r, ⟨⟨hr, by omega⟩, hf⟩, rfl⟩
+
+/-- … and results saved under one strictness are refused under another whenever the two rule sets
+    differ (the rule names of the *current* options decide, not those of an earlier call) -/
+theorem hmmDetection_other_strictness_refused (ctx : Ctx) (rules : List RuleInfo) (ln lc : List String)
+    (o : HmmOpts) (x : HmmDet) (hv : x.valid ctx = true) (saved : String)
+    (hx : x.enabledTypes = rulesetNames rules saved ln lc)
+    (ho : o.ruleNames = rulesetNames rules o.strictness ln lc)
+    (hdiff : setEq (rulesetNames rules saved ln lc) (rulesetNames rules o.strictness ln lc) = false) :
+    HmmDet.regenerate ctx o x.toJson = .refuse .runtime := by
+  apply hmmDetection_rule_names_guard ctx o x.toJson _ (HmmDet.fromJson_toJson ctx x hv)
+  · simp [HmmDet.toJson]
+  · show setEq x.enabledTypes o.ruleNames = false
+    rw [hx, ho]; exact hdiff
+
 /-! ### non-vacuity: the invariants hold on non-trivial concrete objects -/
 
 def exHit : HMMResult :=
@@ -865,5 +931,11 @@ def exOutside : RuleRes := ⟨"rule-based-clusters", [], [⟨"cdsA", [⟨"PP-bin
 example : exOutside.annotateAll = [("cdsA", ⟨some [⟨"PP-binding", ⟨1, -5⟩, ⟨2, 1⟩, 164, "rule-based-clusters"⟩],
     ⟨[⟨.additional, "rule-based-clusters", "PP-binding", none⟩], [⟨.additional, "rule-based-clusters", "PP-binding", none⟩]⟩⟩)] := by
   decide +kernel
+
+def exRuleInfos : List RuleInfo := [⟨"T1PKS", 0, "PKS"⟩, ⟨"NRPS", 0, "NRPS"⟩, ⟨"PKS-like", 1, "PKS"⟩, ⟨"fatty_acid", 2, "other"⟩]
+example : rulesetNames exRuleInfos "strict" [] [] = ["T1PKS", "NRPS"]
+    ∧ rulesetNames exRuleInfos "relaxed" [] [] = ["T1PKS", "NRPS", "PKS-like"]
+    ∧ rulesetNames exRuleInfos "loose" ["T1PKS", "fatty_acid"] [] = ["T1PKS", "fatty_acid"] := by decide +kernel
+example : setEq (rulesetNames exRuleInfos "relaxed" [] []) (rulesetNames exRuleInfos "strict" [] []) = false := by decide +kernel
 
 end ASV.C11
